@@ -577,7 +577,12 @@ int dns_decode(char *buf, size_t buflen, struct query *q, qr_t qr, char *packet,
 			offset = 0;
 			i = 0;
 			while (names[i][0] != '\0') {
-				int l = MIN(strlen(names[i]), buflen-offset-2);
+				int l;
+
+				/* buflen is unsigned: don't let the room left wrap around */
+				if ((size_t) offset + 2 >= buflen)
+					break;
+				l = MIN(strlen(names[i]), buflen-offset-2);
 				if (l <= 0)
 					break;
 				memcpy(buf + offset, names[i], l);
